@@ -2,6 +2,7 @@ import ReplicatProofs.Lemmas.Store
 import ReplicatProofs.Lemmas.Paging
 import ReplicatProofs.Lemmas.LocalSpec
 import ReplicatProofs.Lemmas.ObjCmd
+import ReplicatProofs.Lemmas.StoreLocation
 /-!
 # C13 — all backends behave as the same simple object store
 
@@ -513,6 +514,97 @@ example : Universe (fun p => p = ["a".toList, "b".toList] ∨ p = ["a".toList, "
   refine ⟨⟨?_, ?_⟩, Inv.empty _⟩
   · rintro p (rfl | rfl) <;> decide
   · rintro p q (rfl | rfl) (rfl | rfl) <;> decide
+
+/-! ## the B2 repository location: bucket name or bucket id
+
+The README allows `-r b2:<bucket name>` and `-r b2:<bucket id>`.  The service takes only the NAME in download-by-name URLs and
+only the ID in the JSON API calls; `B2Location.lean` puts `B2.step` behind that addressing (`B2.stepAt`), with the strings the
+current source fills the two kinds of slot with (`Gen.b2DownloadBucketRef`, `Gen.b2ApiBucketRef`) and the fields it matches the
+connection string against (`Gen.b2ListMatchFields`, `Gen.b2AllowedMatchFields`), all regenerated from `backends/b2.py`. -/
+
+/-- what the location theorems use of the source (read by `tools/sections/13_b2loc.py` on every run): every `/file/<bucket>/`
+URL carries the NAME of the looked-up bucket record, every `bucketId` its ID, the connection string is compared with both the
+id and the name of a reported bucket (listing and restricted key alike), and the record is `(id, name)` as reported -/
+theorem b2_location_assumptions_hold :
+    Gen.b2DownloadBucketRef = "resolved.name" ∧ Gen.b2ApiBucketRef = "resolved.id" ∧
+    Gen.b2ListMatchFields = ["bucketId", "bucketName"] ∧ Gen.b2AllowedMatchFields = ["bucketId", "bucketName"] ∧
+    Gen.b2BucketRecordOk = true ∧ Gen.b2locSectionOk = true := by decide
+
+/-- **The spelling of a B2 location does not matter.**  For every account (any buckets, in any order), with a master key or a
+key restricted to our bucket, whether the connection string is our bucket's id or its name — provided it names no other bucket of
+the account (`LocOk`) — every adapter call does exactly what the location-free model `B2.step` does: same return value, same
+new state of the bucket. -/
+theorem b2_location_spelling (l : B2Loc) (h : LocOk l) (ps : Nat) (s : B2) (op : Op) :
+    B2.stepAt l ps s op = B2.step ps s op := by
+  obtain ⟨h1, h2, h3, h4, _, _⟩ := b2_location_assumptions_hold
+  unfold B2.stepAt
+  rw [h1, h2]
+  exact B2.stepAtWith_resolved l (B2Loc.resolve_of_ok l h h3 h4) ps s op
+
+/-- **By id and by name are the same repository**: the two documented spellings of one bucket (each with any kind of key) give
+the same result for every state and operation. -/
+theorem b2_by_id_equals_by_name (buckets : List Bucket) (own : Bucket) (r1 r2 : Bool)
+    (h1 : LocOk ⟨buckets, own, r1, own.id⟩) (h2 : LocOk ⟨buckets, own, r2, own.name⟩) (ps : Nat) (s : B2) (op : Op) :
+    B2.stepAt ⟨buckets, own, r1, own.id⟩ ps s op = B2.stepAt ⟨buckets, own, r2, own.name⟩ ps s op := by
+  rw [b2_location_spelling _ h1, b2_location_spelling _ h2]
+
+/-- **One adapter object at a location, every history**: under either spelling the history returns, operation by operation,
+what the name-to-bytes map returns (same region of names as `b2_refines`). -/
+theorem b2_located_history_refines (l : B2Loc) (h : LocOk l) (ps : Nat) (hps : 1 ≤ ps) (ops : List Op)
+    (hb2 : ∀ op ∈ ops, NameOk (fun n => b2Addr n = some n) op ∧ ChunkOk op) :
+    SpecRun Spec.empty ops (B2.abs (runHistory (B2.stepAt l ps) [] ops).1) (runHistory (B2.stepAt l ps) [] ops).2 := by
+  rw [runHistory_congr (B2.stepAt l ps) (B2.step ps) (fun s op => b2_location_spelling l h ps s op)]
+  exact (history_refines (B2.step ps) B2.abs B2.Inv _
+    (fun s op hi ho => b2_refines ps hps s hi op ho.1 ho.2) [] List.nodup_nil ops hb2).2
+
+/-- why the download URLs must carry the record's NAME (so `b2_location_assumptions_hold` is not decoration): an adapter that
+put the connection string as given into `/file/<…>/` would work for the name spelling and, for the id spelling, report a
+freshly uploaded object as missing and fail to download it — while upload, listing and delete (addressed by id) still work -/
+theorem b2_download_by_identifier_witness :
+    let own : Bucket := ⟨"4a48fe88".toList, "my-backups".toList⟩
+    let byId : B2Loc := ⟨[own], own, false, own.id⟩
+    let byName : B2Loc := ⟨[own], own, false, own.name⟩
+    let step := B2.stepAtWith "identifier" "resolved.id"
+    (step byName 1000 (step byName 1000 [] (.upload "a".toList [1])).1 (.exists_ "a".toList)).2 = .bool true ∧
+    (step byId 1000 [] (.upload "a".toList [1])).2 = .unit ∧
+    (step byId 1000 (step byId 1000 [] (.upload "a".toList [1])).1 (.list [])).2 = .names ["a".toList] ∧
+    (step byId 1000 (step byId 1000 [] (.upload "a".toList [1])).1 (.exists_ "a".toList)).2 = .bool false ∧
+    (step byId 1000 (step byId 1000 [] (.upload "a".toList [1])).1 (.download "a".toList)).2 = .error .notFound := by
+  refine ⟨by decide, by decide, by decide, by decide, by decide⟩
+
+/-- forced hypothesis `LocOk.unambiguous` (a limit of the documented format, not of the adapter): bucket names may look like
+ids, so when another bucket of the account, listed first, is NAMED like our bucket's id, the id spelling reaches that other bucket
+and every API call is made against it -/
+theorem b2_ambiguous_location_witness :
+    let own : Bucket := ⟨"4a48fe88".toList, "my-backups".toList⟩
+    let other : Bucket := ⟨"ffff0000".toList, "4a48fe88".toList⟩
+    let l : B2Loc := ⟨[other, own], own, false, own.id⟩
+    l.resolve = some other ∧ (B2.stepAt l 1000 [] (.upload "a".toList [1])).2 = .error (.http 400 "bad_bucket_id") ∧
+    (B2.stepAt ⟨[own, other], own, false, own.id⟩ 1000 [] (.upload "a".toList [1])).2 = .unit := by
+  refine ⟨by decide, by decide, by decide⟩
+
+/-- non-vacuity: an account with three buckets, ours in the middle, a neighbour whose name extends ours; both spellings are
+good locations (with a master key and with a restricted one), and a history under the id spelling returns what the map returns -/
+example :
+    let own : Bucket := ⟨"4a48fe88".toList, "my-backups".toList⟩
+    let acct : List Bucket := [⟨"00aa".toList, "my-backups-2".toList⟩, own, ⟨"4a48fe89".toList, "zz".toList⟩]
+    LocOk ⟨acct, own, false, own.id⟩ ∧ LocOk ⟨acct, own, true, own.name⟩ ∧
+    (runHistory (B2.stepAt ⟨acct, own, false, own.id⟩ 1) []
+        [.upload "a/b".toList [1], .upload "a/c".toList [2], .exists_ "a/b".toList, .delete "a/b".toList, .download "a/c".toList, .list "a/".toList]).2
+      = [.unit, .unit, .bool true, .unit, .bytes [2], .names ["a/c".toList]] := by
+  refine ⟨⟨Or.inl rfl, by simp, ?_⟩, ⟨Or.inr rfl, by simp, ?_⟩, by decide⟩
+  · intro b hb hne
+    simp only [List.mem_cons, List.not_mem_nil, or_false] at hb
+    rcases hb with rfl | rfl | rfl
+    · exact ⟨by decide, by decide⟩
+    · exact absurd rfl hne
+    · exact ⟨by decide, by decide⟩
+  · intro b hb hne
+    simp only [List.mem_cons, List.not_mem_nil, or_false] at hb
+    rcases hb with rfl | rfl | rfl
+    · exact ⟨by decide, by decide⟩
+    · exact absurd rfl hne
+    · exact ⟨by decide, by decide⟩
 
 /-! ## the object-level commands: `upload_objects`, `download_objects`, `list_objects`, `delete_objects`
 
